@@ -19,8 +19,8 @@ e) revocation is visible to the next request: user_ops::revoke_key returns Ok on
 (g) only key creation activates a key: every User / UserKey record built in engine::auth whose secret_key is copied from an existing record takes `active` from that same record (or sets it false: revocation);
 a constant true next to a copied secret re-activates a revoked key on the next permission update.
 """
-FLOOR = 14
-REQUIRED = ["C13.a", "C13.b1", "C13.b2", "C13.b3", "C13.c", "C13.d", "C13.e", "C13.f", "C13.g"]
+FLOOR = 16
+REQUIRED = ["C13.a", "C13.b1", "C13.b2", "C13.b3", "C13.c", "C13.d", "C13.e", "C13.f", "C13.g", "C13.h", "C13.i"]
 
 GATES = r"(tcp::listener::check_auth|http::dispatcher::check_auth_with_headers|Connection::check_auth|AuthManager::validate_session_token)(::\{closure#0\})?$"
 MAPT = re.compile(NEXT_TRANSPARENT.pattern[:-2] + r"|(std|core)::option::Option::<T>::(map|and_then))$")
@@ -585,3 +585,84 @@ def run(ctx):
             raise AnchorMissing("user records rebuilt around an existing secret key in engine::auth (found %d, confirmed 6)" % n)
         return bad
     ctx.run("C13.g", "K7 PROV", "engine::auth: User / UserKey records rebuilt from an existing one", "a permission update cannot re-activate a revoked key", g_)
+
+    def h_(inst):
+        """A permission or key update is a read-modify-write of the user record. The copy that is modified must be read under the
+        same write guard that writes it back: with a read guard released in between, a GRANT racing with REVOKE KEY writes back
+        `active = true` (the revoked key works again) and concurrent GRANTs lose each other's permissions."""
+        bad = []
+        n = 0
+        for nm in ("auth::permission_ops::grant_permission", "auth::permission_ops::revoke_permission", "auth::user_ops::revoke_key"):
+            b = F.fn(nm)
+            short = nm.split("::")[-1]
+            gets = [c for c in b.calls if not c.cleanup and c.nname.endswith("UserCache::get")]
+            if len(gets) != 1:
+                raise AnchorMissing("UserCache::get in %s (%d)" % (short, len(gets)))
+            g = gets[0]
+            wb = [c for c in b.calls if not c.cleanup and c.nname.endswith("UserCache::insert")]
+            for c in b.calls:
+                if c.cleanup or not c.callee or not F.has(c.callee) or c in wb or "{closure" in c.callee:
+                    continue
+                cal = F.fn(c.callee) if not c.callee.endswith("}") else F.fn_exact(c.callee)
+                fam = [cal] + [F.fn_exact(k) for k in F.keys() if k.startswith(cal.key.split("::{closure")[0] + "::{closure")]
+                if any(x.nname.endswith("UserCache::insert") for f_ in fam for x in f_.calls if not x.cleanup) and c.args:
+                    wb.append(c)
+            if not wb:
+                raise AnchorMissing("the write-back of the user record (UserCache::insert, directly or in a helper) in %s" % short)
+            gl = b._origin_locals(g.args[0])
+            n += 1
+            for w in wb:
+                common = set()
+                for a_ in w.args[:1]:
+                    common |= gl & b._origin_locals(a_)
+                # the shared local is a guard obtained from RwLock::write (not read)
+                ok = any(l[0] == "call" and re.search(r"RwLock(::<\w+>)?::write(::\{closure#\d+\})?$", l[1]) for c_ in common for l in b.origins({"c": [c_]}))
+                inst.sites.append("%s: read @ %s, write-back %s @ %s, same write guard: %s" % (short, sp(b, g.bb), w.nname.split("::")[-1], sp(b, w.bb), ok))
+                if not ok:
+                    bad.append(("user-record-rmw-not-atomic:%s" % short, "%s reads the user record and writes the modified copy back under different lock acquisitions: a concurrent REVOKE KEY / GRANT between the two is overwritten with a stale copy" % short, sp(b, w.bb)))
+        if n < 3:
+            raise AnchorMissing("the three read-modify-write sites (found %d)" % n)
+        return bad
+    ctx.run("C13.h", "K5 HELD", "engine::auth: grant_permission / revoke_permission / revoke_key", "a user record is read and written back under one write guard", h_)
+
+    def i_(inst):
+        """Revocations are records appended to the auth WAL; replay stops at a frame it cannot step over. Opening the file for append
+        must therefore cut off a torn tail first, or everything appended later (a REVOKE KEY) is unreachable for the next start."""
+        bad = []
+        b = F.fn("AuthWalStorage::new_with_sync")
+        seeks = [c for c in b.calls if not c.cleanup and c.nname.endswith("Seek>::seek") or (not c.cleanup and c.nname.endswith("io::Seek::seek"))]
+        end_seek = []
+        for c in seeks:
+            L = b.origins(c.args[1]) if len(c.args) > 1 else []
+            if any(l[0] == "agg" and "SeekFrom::End" in l[1] for l in L):
+                end_seek.append(c)
+        if not end_seek:
+            raise AnchorMissing("seek(SeekFrom::End) in AuthWalStorage::new_with_sync")
+        # calls on the existing-file path that (transitively, 2 levels) truncate the file
+        def truncates(body, depth=2, seen=None):
+            seen = seen if seen is not None else set()
+            if body.key in seen:
+                return False
+            seen.add(body.key)
+            for c in body.calls:
+                if c.cleanup:
+                    continue
+                if re.search(r"fs::File::set_len$", c.nname):
+                    return True
+                if depth > 0 and c.callee and F.has(c.callee) and truncates(F.fn_exact(c.callee), depth - 1, seen):
+                    return True
+            return False
+        tr = [c for c in b.calls if not c.cleanup and c.callee and F.has(c.callee) and truncates(F.fn_exact(c.callee))]
+        wh = [c for c in b.calls if not c.cleanup and c.nname.endswith("::write_header")]
+        if not wh:
+            raise AnchorMissing("write_header (the new-file path) in AuthWalStorage::new_with_sync")
+        inst.sites += [sp(b, c.bb) for c in end_seek + tr]
+        if not tr:
+            bad.append(("append-behind-torn-tail", "AuthWalStorage::new_with_sync positions the append cursor at the end of an existing file without cutting off a torn tail frame: records appended later (revocations) lie behind a frame replay cannot step over", sp(b, end_seek[0].bb)))
+            return bad
+        cut_blocks = [c.bb for c in tr] + [c.bb for c in wh]
+        for c in end_seek:
+            if c.bb in set(b.reach(0, cut_blocks=cut_blocks)):
+                bad.append(("append-behind-torn-tail", "AuthWalStorage::new_with_sync can reach seek(End) for an existing file without the torn-tail truncation", sp(b, c.bb)))
+        return bad
+    ctx.run("C13.i", "K2 CUT", "AuthWalStorage::new_with_sync", "the auth WAL is appended to only behind its last replayable frame", i_)
